@@ -63,7 +63,7 @@ fn base() -> P {
         actors: (1, 3),
         clients: (2, 5),
         ops: (2, 8),
-        caps: vec![Some(1), Some(2), Some(3), Some(4), Some(8), None, None, Some(300)],
+        caps: vec![Some(1), Some(2), Some(3), Some(4), Some(8), None, None, Some(300), Some(33), Some(50)],
         w_op: [30, 8, 22, 8, 4, 3, 3, 4, 4, 3, 3, 2, 2, 4],
         p_gate: 10,
         p_sleep: 40,
@@ -113,7 +113,7 @@ fn profile(name: &str) -> P {
             p.actors = (1, 2);
             p.clients = (3, 8);
             p.ops = (2, 6);
-            p.caps = vec![Some(1), Some(1), Some(2), Some(3), Some(5), Some(8), Some(32), None, Some(300)];
+            p.caps = vec![Some(1), Some(1), Some(2), Some(3), Some(5), Some(8), Some(32), None, Some(300), Some(33), Some(40)];
             p.w_op = [60, 10, 0, 0, 0, 5, 2, 3, 5, 2, 2, 2, 1, 6];
             p.p_tell_only = 100;
             p.p_self_tell = 8;
@@ -1039,6 +1039,35 @@ fn generate_overlap(seed: u64) -> Scenario {
             fixed_timing: true,
         };
     }
+    if r.chance(15) {
+        // "diamond": one hook of A has two asks in flight (to B and to C), and both B and C are waiting for the same busy D.
+        // Meanwhile X - unrelated - asks A. Branches that converge are not a cycle: X simply waits until A is done.
+        let d_busy = 2 * r.range(6, 9);
+        let to_d = |u: u64, u2: u64| Body { uid: u, flags: 0, steps: vec![Step::Peer { target: 3, kind: SendKind::Ask, mty: MTy::U, body: plain(u2, 0) }] };
+        let hold = Body { uid: nu(), flags: 0, steps: vec![Step::Sleep(d_busy)] };
+        let (b1, b1i, b2, b2i) = (nu(), nu(), nu(), nu());
+        let m_a = Body { uid: nu(), flags: 0, steps: vec![Step::JoinAsk { t1: 1, b1: to_d(b1, b1i), t2: 2, b2: to_d(b2, b2i) }] };
+        let m_x = Body { uid: nu(), flags: 0, steps: vec![Step::Peer { target: 0, kind: SendKind::Ask, mty: MTy::U, body: plain(nu(), 0) }] };
+        let actors = vec![spec(), spec(), spec(), spec(), spec()];
+        let one = |a: usize, pre: Pre, kind: SendKind, body: Body| ClientSpec { init: vec![Some(a), None, None, None], ops: vec![ClientOp { pre, op: Op::Send { slot: 0, kind, mty: MTy::U, body } }], drop_at_end: true };
+        let clients = vec![
+            one(3, Pre::None, SendKind::Tell, hold),
+            one(0, Pre::Sleep(2), SendKind::Ask, m_a),
+            one(4, Pre::Sleep(4), SendKind::Ask, m_x),
+        ];
+        return Scenario {
+            seed,
+            pert: 0,
+            profile: "deadlock".to_string(),
+            actors,
+            clients,
+            ngates: 1,
+            teardown: vec![Teardown::Stop, Teardown::Stop, Teardown::Kill, Teardown::Stop, Teardown::Stop],
+            sample_until: 61,
+            default_cap: 32,
+            fixed_timing: true,
+        };
+    }
     if r.chance(20) {
         // "joining asker": A's handler ask_joins B. B answers at once with the JoinHandle of a task that runs for 8 ms; while A
         // is still waiting for that task (not for B any more - its ask has been answered), B's next handler asks A. Nobody
@@ -1319,6 +1348,15 @@ fn generate_deadlock(seed: u64) -> Scenario {
             }
             if r.chance(15) {
                 steps.push(Step::Sleep(2));
+            }
+            if r.chance(15) {
+                // the hook survives whatever its first ask returned (also an error caused by a deadlock report further down
+                // the chain) and asks somebody else - possibly an actor that is still waiting for it
+                let t2 = r.below(n as u64) as usize;
+                if t2 != from {
+                    *uid += 1;
+                    steps.push(Step::Peer { target: t2, kind: SendKind::Ask, mty: MTy::U, body: Body::plain(*uid) });
+                }
             }
         }
         Body {
